@@ -145,6 +145,81 @@ let parse_op (o : string) : e M.op * char =
 
 let split_ops s = String.split_on_char ';' s
 
+(* ---- round 5: traversals alive together (ops Z and Y of the H lines, harness round5.go).  Each
+   traversal is evaluated BY ITSELF through [ask] (the model's step, or the reference's): what it
+   delivers must not depend on what else is running. *)
+type trav = TAfter of int * e | TIn of int
+let parse_trav (s : string) : trav =
+  if String.length s < 2 then raise Bad;
+  let rest = String.sub s 1 (String.length s - 1) in
+  match s.[0] with
+  | 'I' -> (match int_of_string_opt rest with Some t when t >= 0 -> TIn t | _ -> raise Bad)
+  | 'A' -> (match String.split_on_char '/' rest with
+            | [t; e] -> (match int_of_string_opt t with Some t when t >= 0 -> TAfter (t, (try parse_e e with _ -> raise Bad)) | _ -> raise Bad)
+            | _ -> raise Bad)
+  | _ -> raise Bad
+let trav_op tv stop = match tv with
+  | TAfter (t, e) -> M.OInorderAfter (nat_of_int t, e, stop)
+  | TIn t -> M.OInorder (nat_of_int t, stop)
+let rec take_n n l = if n <= 0 then [] else match l with [] -> [] | x :: r -> x :: take_n (n - 1) r
+let is_ext_op (o : string) = String.length o >= 2 && (o.[0] = 'Z' || o.[0] = 'Y') && o.[1] = ':'
+(* the output of an op Z or Y, given how one tree answers one op *)
+let ext_output (cmp : e -> e -> M.z) (ask : e M.op -> e M.out) (o : string) : string =
+  let list_of op = match ask op with M.RList l -> l | _ -> raise Bad in
+  let sign a b = match cmp a b with M.Z0 -> 0 | M.Zpos _ -> 1 | M.Zneg _ -> -1 in
+  match String.split_on_char ':' o with
+  | ["Z"; travs; sched] ->
+    let tvs = Array.of_list (List.map parse_trav (String.split_on_char ',' travs)) in
+    let k = Array.length tvs in
+    if k = 0 || k > 10 then raise Bad;
+    let pulls = Array.make k 0 in
+    String.iter (fun c -> let i = Char.code c - 48 in if i < 0 || i >= k then raise Bad; pulls.(i) <- pulls.(i) + 1) sched;
+    String.concat "/" (Array.to_list (Array.mapi (fun i tv ->
+      let l = list_of (trav_op tv None) in
+      show_es (take_n pulls.(i) l) ^ (if pulls.(i) > List.length l then "$" else "")) tvs))
+  | ["Y"; outer; stop; every; inners] ->
+    let outer = parse_trav outer in
+    let stop = (match int_of_string_opt stop with Some s when s >= -1 -> s | _ -> raise Bad) in
+    let every = (match int_of_string_opt every with Some v when v >= 1 -> v | _ -> raise Bad) in
+    let iv x = match int_of_string_opt x with Some v -> v | None -> raise Bad in
+    let tree x = let t = iv x in if t < 0 then raise Bad else nat_of_int t in
+    let st x = let s = iv x in if s < -1 then raise Bad else stop_of (string_of_int s) in
+    let inner (s : string) : e -> string =
+      if String.length s < 2 then raise Bad;
+      match s.[0], String.split_on_char '/' (String.sub s 1 (String.length s - 1)) with
+      | 'A', [t; dk; sp] -> let t = tree t and dk = iv dk and sp = st sp in
+        (fun (k, _) -> show_es (list_of (M.OInorderAfter (t, (k + dk, 0), sp))))
+      | 'I', [t; sp] -> let t = tree t and sp = st sp in (fun _ -> show_es (list_of (M.OInorder (t, sp))))
+      | 'g', [t; dk] -> let t = tree t and dk = iv dk in
+        (fun (k, _) -> match ask (M.OGet (t, (k + dk, 0))) with
+           | M.ROpt w -> (match w with Some _ -> "1:" | None -> "0:") ^ show_opt_e w
+           | _ -> raise Bad)
+      | 'm', [t] -> let t = tree t in
+        (fun _ -> match ask (M.OMin t), ask (M.OMax t), ask (M.OLen t) with
+           | M.ROpt a, M.ROpt b, M.RInt n -> show_opt_e a ^ "~" ^ show_opt_e b ^ "~" ^ string_of_int (int_of_z n)
+           | _ -> raise Bad)
+      | 'c', [t; dk] -> let t = tree t and dk = iv dk in
+        (* Tree.Cursor(key): valid at the stored key equivalent to it; Next / Prev = its neighbours *)
+        (fun (k, _) ->
+           let l = Array.of_list (list_of (M.OInorder (t, None))) in
+           let j = ref (-1) in
+           Array.iteri (fun i x -> if sign x (k + dk, 0) = 0 then j := i) l;
+           if !j < 0 then "0~0_0~0_0~0_0"
+           else "1~" ^ show_e l.(!j) ^ "~" ^ (if !j + 1 < Array.length l then show_e l.(!j + 1) else "0_0")
+                ^ "~" ^ (if !j > 0 then show_e l.(!j - 1) else "0_0"))
+      | _ -> raise Bad in
+    let inners = List.map inner (String.split_on_char '+' inners) in
+    let l = list_of (trav_op outer (stop_of (string_of_int stop))) in
+    let b = Buffer.create 256 in
+    Buffer.add_string b (show_es l);
+    List.iteri (fun i x ->
+      if i mod every = 0 then begin
+        Buffer.add_char b '#';
+        Buffer.add_string b (String.concat "+" (List.map (fun f -> f x) inners))
+      end) l;
+    Buffer.contents b
+  | _ -> raise Bad
+
 (* ---- model side *)
 let model_summary cmp (st : e M.state) (i : int) (t : e M.tree0) =
   let ask o = snd (M.step cmp limit_z st o) in
@@ -167,6 +242,7 @@ let eval_history cmpname opss =
   let st = ref ([] : e M.state) in
   (try
     List.iter (fun o ->
+      if is_ext_op o then push (ext_output cmp (fun op -> snd (M.step cmp limit_z !st op)) o) else
       let (op, kind) = parse_op o in
       if kind = 'S' then begin
         match op with
@@ -299,6 +375,7 @@ type macro =
   | MGet of int * int list
   | MAfter of int * int list * int
   | MInorder of int * int
+  | MZip of int * int * int list * int      (* round 5: InorderAfter(k) on two trees pulled in turns, m times each *)
 
 let parse_macro (m : string) : macro =
   if m = "" then raise Bad;
@@ -316,9 +393,22 @@ let parse_macro (m : string) : macro =
   | 'Q', [t; ks] -> MGet (tree t, keys_of_ks ks)
   | 'I', [t; ks; s] -> MAfter (tree t, keys_of_ks ks, stop s)
   | 'F', [t; s] -> MInorder (tree t, stop s)
+  | 'Z', [t1; t2; ks; m] -> let m = iv m in if m < 0 || m > max_seq then raise Bad else MZip (tree t1, tree t2, keys_of_ks ks, m)
   | _ -> raise Bad
 
 let checkpoint_every m = max 4 ((m + 7) / 8)
+
+let feed_e_ h ((k, p) : e) = feed (feed h k) p
+(* the digest of a Z macro: per key the two sequences (each evaluated alone) in the order of delivery *)
+let zip_feed (h, total) (l1 : e list) (l2 : e list) =
+  let h = ref h and total = ref total in
+  let rec go a b = match a, b with
+    | [], [] -> ()
+    | x :: a', [] -> h := feed_e_ !h x; incr total; go a' []
+    | [], y :: b' -> h := feed_e_ !h y; incr total; go [] b'
+    | x :: a', y :: b' -> h := feed_e_ (feed_e_ !h x) y; total := !total + 2; go a' b' in
+  go l1 l2;
+  (feed !h (-1), !total)
 
 (* the oracle of a bulk New as indices into the keys: for every class in ascending order the member
    with the given ordinal (argument order); anything malformed becomes an index out of range, which
@@ -449,7 +539,19 @@ let eval_big cmpname prog =
       | MInorder (t, s) ->
         (match step (M.OInorder (ix t, stop_of (string_of_int s))) with
          | M.RList l -> push (Printf.sprintf "%d,%s" (List.length l) (show_hash (feed (List.fold_left feed_e (0, 0) l) (-1))))
-         | r -> fail_of r)) (String.split_on_char ';' prog)
+         | r -> fail_of r)
+      | MZip (t1, t2, ks, m) ->
+        let i1 = ix t1 and i2 = ix t2 in
+        let acc = ref ((0, 0), 0) in
+        List.iter2 (fun k k' ->
+          let e1 = el k in
+          let e2 = el k' in
+          let run i e = if m = 0 then [] else
+            (match step (M.OInorderAfter (i, e, Some (nat_of_int (m - 1)))) with M.RList l -> l | r -> fail_of r) in
+          let l1 = run i1 e1 in
+          let l2 = run i2 e2 in
+          acc := zip_feed !acc l1 l2) ks (List.rev ks);
+        push (Printf.sprintf "%d,%s" (snd !acc) (show_hash (fst !acc)))) (String.split_on_char ';' prog)
   with Exit -> ());
   String.concat ";" (List.rev !outs)
 
@@ -518,6 +620,11 @@ let spec_history cmpname opss out : string option =
     | [], [] -> None
     | [], _ -> Some "more outputs than ops"
     | o :: _, [] -> fail i o "no output (the history stopped early)"
+    | o :: ops', x :: outs' when is_ext_op o ->
+      if x = "hang" || (String.length x >= 6 && String.sub x 0 6 = "panic:") then fail i o x else
+      let want = ext_output cmp (fun op -> snd (M.spec_step cmp !st op)) o in
+      if x = want then go (i + 1) ops' outs'
+      else fail i o ("traversals alive together deliver " ^ x ^ ", each one alone on the reference set delivers " ^ want)
     | o :: ops', x :: outs' ->
       let (op, kind) = parse_op o in
       let is_fail = x = "hang" || (String.length x >= 6 && String.sub x 0 6 = "panic:") in
@@ -580,6 +687,7 @@ let rec seq_take n (s : 'a Seq.t) : 'a Seq.t = fun () ->
 
 let macro_keys = function
   | MBulk (_, ks, _) | MMut (_, _, ks) | MGet (_, ks) | MAfter (_, ks, _) -> List.length ks
+  | MZip (_, _, ks, _) -> 2 * List.length ks
   | _ -> 0
 
 let spec_big cmpname prog out : string option =
@@ -756,6 +864,28 @@ let spec_big cmpname prog out : string option =
          if x = want then next ()
          else if x = want ^ "!" then fail "yield called again after it returned false"
          else fail (Printf.sprintf "InorderAfter delivers %s, reference %s" x want)
+       | MZip (t1, t2, ks, m) ->
+         let t1 = tree t1 and t2 = tree t2 in
+         let acc = ref ((0, 0), 0) in
+         List.iter2 (fun k k' ->
+           let e1 = el k in
+           let e2 = el k' in
+           (* each of the two range queries alone: the first m elements not less than its key *)
+           let run t e =
+             let (_, eq, above) = IM.split (pos e) !st.(t) in
+             let seq = Seq.append (match eq with Some v -> Seq.return v | None -> Seq.empty) (Seq.map snd (IM.to_seq above)) in
+             let l = List.of_seq (seq_take m seq) in
+             (if m > 0 then match xstep (M.OInorderAfter (nat_of_int t, e, Some (nat_of_int (m - 1)))) with
+               | Some (M.RList l') -> if l <> l' then disagree "InorderAfter"
+               | None -> ()
+               | Some _ -> disagree "InorderAfter");
+             l in
+           let l1 = run t1 e1 in
+           let l2 = run t2 e2 in
+           acc := zip_feed !acc l1 l2) ks (List.rev ks);
+         let want = Printf.sprintf "%d,%s" (snd !acc) (show_hash (fst !acc)) in
+         if x = want then next ()
+         else fail (Printf.sprintf "two range queries pulled in turns deliver %s, each one alone on the reference set gives %s" x want)
        | MInorder (t, s) ->
          let t = tree t in
          let seq = Seq.map snd (IM.to_seq !st.(t)) in
